@@ -622,8 +622,37 @@ fn c23() {
     }
 }
 
+// ---- C20: first-error selection by hash-map iteration order (run the process several times and compare) ----
+fn c20() {
+    let r = air_parser::parse(r#"(seq (seq (call "p" ("s" "f") [aaa]) (call "p" ("s" "f") [bbb])) (seq (call "p" ("s" "f") [ccc]) (call "p" ("s" "f") [ddd])))"#);
+    let msg = r.err().unwrap_or_default();
+    let order: Vec<usize> = ["'aaa'", "'bbb'", "'ccc'", "'ddd'"].iter().map(|n| msg.find(n).unwrap_or(0)).collect();
+    println!("C20 parser message: len={} positions-of-names={:?}", msg.len(), order);
+    // two dangling references in the CID info: which one is reported?
+    use air_interpreter_data::*;
+    use polyplets::SecurityTetraplet;
+    let mut values = CidTracker::<RawValue>::new();
+    let rv: RawValue = serde_json::from_value(serde_json::json!("1")).unwrap(); let v1 = values.track_raw_value(rv);
+    let mut tetraplets = CidTracker::<SecurityTetraplet>::new();
+    
+    let mut results = CidTracker::<ServiceResultCidAggregate>::new();
+    for i in 0..8 {
+        let ah: std::rc::Rc<str> = format!("hash{i}").into();
+        let ti = tetraplets.track_value(SecurityTetraplet::new(format!("p{i}"), "s", "f", "")).unwrap();
+        results.track_value(ServiceResultCidAggregate { value_cid: v1.clone(), argument_hash: ah, tetraplet_cid: ti }).unwrap();
+    }
+    // stores lack the value and the tetraplet: 8 entries x 2 dangling references, the first one found is reported
+    let cid_info = CidInfo { service_result_store: results.into(), ..Default::default() };
+    let data = InterpreterDataEnvelope::from_execution_result(ExecutionTrace::from(vec![]), cid_info, air_interpreter_signatures::SignatureStore::new(), 0,
+        semver::Version::parse("0.64.1").unwrap()).serialize().unwrap();
+    let mut v = peer(5); let id = v.id.clone();
+    let o = run(&mut v, &id, "(null)", data, HashMap::new());
+    println!("C20 dangling-reference message: ret={} {}", o.ret_code, o.error_message);
+}
+
 fn main() {
     let which: Vec<String> = std::env::args().skip(1).collect();
+    if which.iter().any(|w| w == "c20") { c20(); }
     if which.iter().any(|w| w == "c23") { c23(); }
     if which.first().map(|w| w == "deep").unwrap_or(false) { deep(&which[1..]); return; }
     if which.is_empty() || which.iter().any(|w| w == "c03") { c03(); }
